@@ -56,6 +56,9 @@ def judge(case):
         return "ok", fails, info
     ref_log = []
     compared = 0
+    straddle = set(P.straddling(subs))
+    if straddle:
+        return "skipped:straddling-subcircuit", [], info
     for i, sc in enumerate(rs):
         try:
             ref = P.sub_state(subs, i, ref_log)
